@@ -51,4 +51,12 @@ inline ParseOptions decodeOptions(const std::string& spec)
     return o;
 }
 
+#include "common/diagnostics/Diagnostic.h"
+inline std::string diagIdsOf(const SyntaxTree* tree)
+{
+    std::string s;
+    for (auto& d : tree->diagnostics()) { if (!s.empty()) s += ","; s += d.descriptor().id(); }
+    return s.empty() ? "-" : s;
+}
+
 inline std::string kindStr(SyntaxKind k) { return kindName(static_cast<unsigned>(k)); }
